@@ -65,6 +65,32 @@ def apply_spec(mod, spec):
                 if f == "points":
                     v = [tuple(p) for p in v]
                 setattr(env, f, v)
+        elif k == "env_rebind":
+            # REBIND the envelope object (instead of editing it in place)
+            en = e["e"]
+            if en.startswith("effect"):
+                i = int(en[-1]) - 1
+                new = mod.EffectControlEnvelope(mod.effect_control_envelopes[i].chnm)
+            else:
+                new = {"volume_envelope": mod.VolumeEnvelope, "panning_envelope": mod.PanningEnvelope,
+                       "pitch_envelope": mod.PitchEnvelope}[en]()
+            lo, hi = env_range(en)
+            new.points = [(0, lo), (7, hi), (30, (lo + hi) // 2)]
+            new.enable, new.sustain, new.loop = True, True, True
+            new.sustain_point, new.gain_pct = 1, 33
+            if en.startswith("effect"):
+                mod.effect_control_envelopes[i] = new
+            else:
+                setattr(mod, en, new)
+        elif k == "rebind_lists":
+            # rebind the list / map objects themselves
+            old = mod.samples
+            mod.samples = list(old)
+            nm = mod.NoteSampleMap()
+            for kk, vv in mod.note_samples.items():
+                nm[kk] = vv
+            mod.note_samples = nm
+            mod.effect_control_envelopes = list(mod.effect_control_envelopes)
         elif k == "map":
             keys = list(mod.note_samples.keys())
             for i, v in e["entries"]:
@@ -260,6 +286,10 @@ def object_cases(ctx):
         for f in ("ctl_index", "gain_pct", "velocity"):
             for v in (0, 1, 100, 255):
                 add("env-byte:" + en, [{"k": "env", "e": en, "fields": {f: v}}])
+    for en in ENVS:
+        add("env-rebind:" + en, [{"k": "env_rebind", "e": en}])
+    add("rebind-lists", [dict(base), {"k": "rebind_lists"}, {"k": "map", "entries": [[4, 9]]}, {"k": "sample", "i": 2, "data": "odd"},
+                         {"k": "env", "e": "effect2", "fields": {"loop": True, "sustain": True, "enable": False}}])
     for i in range(119):
         for v in (1, 127) if not ctx.thorough else (1, 2, 127, 255):
             add("note-map", [{"k": "map", "entries": [[i, v]]}])
